@@ -240,6 +240,15 @@ fn to_ir_axis(
         )
     };
 
+    // the axis name becomes a name record that fvar and STAT refer to; an empty
+    // one is dropped from the name table and would leave them dangling
+    if axis.name.is_empty() {
+        return Err(Error::InvalidEntry(
+            "axis",
+            format!("'{}' has no name", axis.tag),
+        ));
+    }
+
     Ok(fontdrasil::types::Axis {
         name: axis.name.clone(),
         tag: Tag::from_str(&axis.tag).map_err(|cause| Error::InvalidTag {
